@@ -276,6 +276,23 @@ func (g *Gen) Alts(t reflect.Type, budget int, substitute bool) []reflect.Value 
 			}
 			out = append(out, s)
 		}
+		if ek := t.Elem().Kind(); ek == reflect.String || (ek == reflect.Slice && t.Elem().Elem().Kind() == reflect.Uint8) {
+			// several long items of different paddings in one vector
+			lens := []int{300, 254, 255, 257}
+			s := reflect.MakeSlice(t, len(lens), len(lens))
+			for i, n := range lens {
+				b := bytesPattern(n)
+				for k := range b {
+					b[k] |= 0x80
+				}
+				if ek == reflect.String {
+					s.Index(i).Set(reflect.ValueOf(string(b)).Convert(t.Elem()))
+				} else {
+					s.Index(i).Set(reflect.ValueOf(b).Convert(t.Elem()))
+				}
+			}
+			out = append(out, s)
+		}
 		out = append(out, reflect.Zero(t)) // nil vector
 		return out
 	case reflect.Ptr:
